@@ -73,6 +73,8 @@ def plain_values(tier="quick"):
     # mutable shared and mutated after first reference: handled by the pickler via memo
     d = {"a": 1}
     vals.append([d, d])
+    # equal-but-different constants side by side (caches keyed by equality confuse them)
+    vals += [[0.0, -0.0], [-0.0, 0.0], [1.0, True, 1], [True, 1.0], (0, False, 0.0), [1, True], {"a": 0.0, "b": -0.0}, 0.0]
     vals.append(list(range(300)))
     vals.append([[i] for i in range(300)])  # > 255 memo entries at protocols that memoise lists
     vals.append({str(i): i for i in range(20)})
